@@ -242,8 +242,16 @@ func (rs RuneSet) Contains(r rune) bool {
 // of b are in a
 func (a RuneSet) includes(b RuneSet) bool {
 	bi, ai := 0, 0 // index in b and a
-	for bi < len(b) && ai < len(a) {
-		bEntry, aEntry := b[bi], a[ai]
+	for bi < len(b) {
+		bEntry := b[bi]
+		if bEntry.set == (pageSet{}) { // Delete may leave empty pages
+			bi++
+			continue
+		}
+		if ai >= len(a) { // b has a non empty page not in a
+			return false
+		}
+		aEntry := a[ai]
 		// Check matching pages
 		if bEntry.ref == aEntry.ref {
 			if ok := aEntry.set.includes(bEntry.set); !ok {
@@ -261,8 +269,7 @@ func (a RuneSet) includes(b RuneSet) bool {
 			}
 		}
 	}
-	//  did we look at every page?
-	return bi >= len(b)
+	return true
 }
 
 // Len returns the number of runes in the set.
